@@ -93,9 +93,45 @@ package lexer
 //@ scope token.go
 
 //@ func (TokenType).IsFunction
+//@   pure
 //@   modifies nothing
 //@   ensures[exact-set] ret0 == (tt == Rate || tt == RateCounter || tt == CountOverTime || tt == BytesRate || tt == BytesOverTime ||
 //@       tt == AvgOverTime || tt == SumOverTime || tt == MinOverTime || tt == MaxOverTime || tt == StdvarOverTime || tt == StddevOverTime ||
 //@       tt == QuantileOverTime || tt == FirstOverTime || tt == LastOverTime || tt == AbsentOverTime || tt == Vector ||
 //@       tt == Sum || tt == Avg || tt == Max || tt == Min || tt == Count || tt == Stddev || tt == Stdvar || tt == Bottomk || tt == Topk ||
 //@       tt == Sort || tt == SortDesc || tt == LabelReplace || tt == BytesConv || tt == DurationConv || tt == DurationSecondsConv || tt == IP)
+
+//@ scope lexer.go
+
+// ---- C05: one token per scanned lexeme. A two-character operator wins over its one-character
+// prefix (">=" is never ">" followed by "="); numbers are classified by their unit suffix; strings are
+// unquoted; everything that is not in the token table is an identifier.
+
+//@ spec func isNumberLexeme(r rune) bool { return r == scanner.Int || r == scanner.Float }
+//@ spec func isStringLexeme(r rune) bool { return r == scanner.String || r == scanner.RawString }
+
+//@ func (*lexer).nextToken
+//@   capture fl = call(l.scanner.Peek, 0)
+//@   capture pk = call(l.scanner.Peek, 1)
+//@   capture su = call(lexerql.ScanUnit, 0)
+//@   capture uq = call(strutil.Unquote, 0)
+//@   ensures[parser-flag] r == '-' && fl_r0 == '-' ==> ret1 && ret0.Type == ParserFlag
+//@   ensures[number-classified-by-unit] !(r == '-' && fl_r0 == '-') && isNumberLexeme(r) ==> su_called && su_a1 == text && ret1 == (su_r1 == nil) &&
+//@       (su_r1 == nil ==> ret0.Type == ite(su_r0.Type == lexerql.Duration, Duration, ite(su_r0.Type == lexerql.Bytes, Bytes, Number)) &&
+//@                        ret0.Text == ite(su_r0.Type == lexerql.Duration || su_r0.Type == lexerql.Bytes, su_r0.Text, text))
+//@   ensures[string-unquoted] !(r == '-' && fl_r0 == '-') && isStringLexeme(r) ==> uq_called && uq_a0 == text && ret1 == (uq_r1 == nil) && (uq_r1 == nil ==> ret0.Type == String && ret0.Text == uq_r0)
+//@   ensures[two-character-operator-wins] !(r == '-' && fl_r0 == '-') && !isNumberLexeme(r) && !isStringLexeme(r) && has(tokens, text+string(pk_r0)) ==>
+//@       ret1 && ret0.Type == tokens[text+string(pk_r0)] && ret0.Text == text+string(pk_r0)
+//@   ensures[table-spelling] !(r == '-' && fl_r0 == '-') && !isNumberLexeme(r) && !isStringLexeme(r) && !has(tokens, text+string(pk_r0)) && has(tokens, text) ==>
+//@       ret1 && ret0.Text == text && (ret0.Type == tokens[text] || (tokens[text].IsFunction() && ret0.Type == Ident))
+//@   ensures[keywords-and-operators-keep-their-token] !(r == '-' && fl_r0 == '-') && !isNumberLexeme(r) && !isStringLexeme(r) && !has(tokens, text+string(pk_r0)) && has(tokens, text) && !tokens[text].IsFunction() ==> ret0.Type == tokens[text]
+//@   ensures[identifier-otherwise] !(r == '-' && fl_r0 == '-') && !isNumberLexeme(r) && !isStringLexeme(r) && !has(tokens, text+string(pk_r0)) && !has(tokens, text) ==> ret1 && ret0.Type == Ident && ret0.Text == text
+
+//@ func scanSpace
+//@   modifies nothing
+//@   loop 0 modifies nothing
+//@ func scanFlag
+//@   modifies nothing
+//@   loop 0 modifies sb.*
+//@ func (*lexer).setError
+//@   modifies l.err
